@@ -4,7 +4,7 @@
    x = data, kap = cropped kernel, all for one axis; no bound on any of them. *)
 From Coq Require Import ZArith List Bool Lia QArith Qminmax Qabs Reals.
 From NV.Generated Require Import KernelSmooth.
-From NV.C18 Require Import Model ModelR Proofs1 Proofs2 Proofs3 Proofs4 ProofsR Source.
+From NV.C18 Require Import Model ModelR Proofs1 Proofs2 Proofs3 Proofs4 ProofsR Source Fix.
 Import ListNotations.
 Close Scope Q_scope.
 Close Scope R_scope.
@@ -196,6 +196,21 @@ Proof.
   apply P; try lia; intros C; unfold Qeq in C; simpl in C; discriminate C.
 Qed.
 Print Assumptions centred_even_cropped_refuted.
+
+(* the proposed repair (reports/C18-fix-1.diff): with the window started at c_k
+   (smooth1_w n k c_k; smooth1_w n k (k//2) is the code) the response to an
+   impulse at p0 has its strict maximum AT p0 - every n, k, c_k, profile. *)
+Theorem proposed_fix_is_centred :
+  forall (g : Z -> Q), (forall d, (0 <= g d)%Q) -> (forall d, d <> 0 -> (g d < g 0%Z)%Q) ->
+  forall n k ck p0 p, 1 <= n -> 0 <= ck < k -> 0 <= p0 < n -> 0 <= p < n -> p <> p0 ->
+  (smooth1_w n k ck (delta p0) (kern_of g ck) 1 0 p < smooth1_w n k ck (delta p0) (kern_of g ck) 1 0 p0)%Q /\
+  (forall x kap scale loc q, smooth1_w n k (win_start k) x kap scale loc q = smooth1 n k x kap scale loc q).
+Proof.
+  intros g H1 H2 n k ck p0 p Hn Hck Hp0 Hp Hne. split.
+  - apply fixed_window_centred; assumption.
+  - intros. reflexivity.
+Qed.
+Print Assumptions proposed_fix_is_centred.
 
 (* (7) _crop's tolerance test keeps exactly the entries inside the cut. *)
 Theorem crop_keeps_cut_support :
